@@ -7,6 +7,7 @@ CONSTANTS
   NRandom = 1500
   BuildMax = 0
   BuildIds = {}
+  WithFamilies = TRUE
   StaticInit = TRUE
 INIT GInit
 NEXT GNext
